@@ -1,5 +1,10 @@
 mod storage;
 
+#[cfg(aquatic_verif)]
+pub mod verif_storage {
+    pub use super::storage::*;
+}
+
 use std::cell::RefCell;
 use std::rc::Rc;
 use std::time::Duration;
@@ -24,6 +29,15 @@ pub async fn run_swarm_worker(
     server_start_instant: ServerStartInstant,
     worker_index: usize,
 ) -> anyhow::Result<()> {
+    #[cfg(aquatic_verif)]
+    match aquatic_common::verif::probe("http.swarm.start") {
+        aquatic_common::verif::ACTION_RETURN_OK => return Ok(()),
+        aquatic_common::verif::ACTION_RETURN_ERR => {
+            return Err(anyhow::anyhow!("verif: injected swarm worker error"))
+        }
+        _ => (),
+    }
+
     let (_, mut request_receivers) = request_mesh_builder
         .join(Role::Consumer)
         .await
@@ -36,6 +50,9 @@ pub async fn run_swarm_worker(
     TimerActionRepeat::repeat(enclose!((config, torrents, access_list) move || {
         enclose!((config, torrents, access_list) move || async move {
             torrents.borrow_mut().clean(&config, &access_list, server_start_instant);
+
+            #[cfg(aquatic_verif)]
+            aquatic_common::verif::count("http.clean_done");
 
             Some(Duration::from_secs(config.cleaning.torrent_cleaning_interval))
         })()
@@ -102,6 +119,13 @@ async fn handle_request_stream<S>(
     let mut rng: SmallRng = make_rng();
 
     while let Some(channel_request) = stream.next().await {
+        #[cfg(aquatic_verif)]
+        if aquatic_common::verif::probe("http.swarm.request")
+            != aquatic_common::verif::ACTION_CONTINUE
+        {
+            return;
+        }
+
         match channel_request {
             ChannelRequest::Announce {
                 request,
